@@ -4,6 +4,7 @@ package verifsrv
 
 import (
 	"bufio"
+	"strconv"
 	"encoding/json"
 	"fmt"
 	"io"
@@ -30,13 +31,24 @@ type server struct {
 	logs  []string
 }
 
+var portSeq int
+
+// freePort hands out ports from a range private to this shard (parallel shards must not race
+// for the same "free" port: a server that lost the race would exit while the health probe
+// happily talks to the other shard's server).
 func freePort() int {
-	l, err := net.Listen("tcp", "127.0.0.1:0")
-	if err != nil {
-		return 0
+	sh, _ := strconv.Atoi(os.Getenv("VERIF_SHARD"))
+	for i := 0; i < 1500; i++ {
+		portSeq++
+		port := 21000 + (sh%16)*1500 + (os.Getpid()*7+portSeq)%1500
+		l, err := net.Listen("tcp", fmt.Sprintf(":%d", port))
+		if err != nil {
+			continue
+		}
+		l.Close()
+		return port
 	}
-	defer l.Close()
-	return l.Addr().(*net.TCPAddr).Port
+	return 0
 }
 
 // startServer launches thruserv with the given flags on a free port and waits for /health.
@@ -79,7 +91,10 @@ func startServer(args ...string) (*server, error) {
 			time.Sleep(10 * time.Millisecond)
 		}
 		if ok {
-			return s, nil
+			time.Sleep(5 * time.Millisecond)
+			if s.alive() {
+				return s, nil
+			}
 		}
 		s.stop()
 	}
